@@ -38,7 +38,8 @@ from mc.checks import minviol
 PROPERTY = "C16"
 LEVEL = "model_checking"
 RULE = (
-    "BFS over all sequences of length <= D (D=3 quick, 4 thorough) of constructor calls from a pool of 54 "
+    "BFS over all sequences of D constructor calls: the first D-1 from a pool of 54, the last from a sub-pool of 21 "
+    "with one route per structure class (D=3 quick, 4 thorough; all shorter sequences over the full pool) "
     "(0/1/2-ary And/Or/Plus/Times, list forms, repeated structures through different routes, GE/GT, nested Not, "
     "Int(1) vs 1 vs '1' vs 1.0 vs Fraction(2,2), Real(1/2) vs 0.5 vs '0.5' vs '1/2' vs Fraction(2,4), Real(1) vs Int(1) "
     "vs True, negative literals, fluent auto-promotion, python operator routes, quantifiers, two ill-typed calls); invariants norm/identity/distinct/frozen "
@@ -52,7 +53,8 @@ ASSUMPTIONS = [
 
 
 def bounds(tier):
-    return {"depth": 3 if tier == "quick" else 4, "pool": [show(c) for c in POOL]}
+    return {"depth": 3 if tier == "quick" else 4, "pool": [show(c) for c in POOL],
+            "full_pool_calls": 2 if tier == "quick" else 3, "last_call_pool": [show(c) for c in PROBE]}
 
 
 # ---------------------------------------------------------------------------------------------
@@ -88,6 +90,13 @@ POOL = [
     ("And", p, n), ("Plus", n, p),
 ]
 ILL = {("And", p, n), ("Plus", n, p)}
+# the LAST call of a maximal-length history is drawn from this sub-pool (one route per structure class)
+PROBE = [
+    ("And", p, s), ("AndL", p, s), ("Or",), ("Plus",), ("Plus", n, L1), ("Times", n, lit("frac", "2/2")),
+    ("Not", ("Not", p)), ("Not", ("Not", ("Not", p))), ("GE", L1, n), ("GT", r, n), ("Int", 1), lit("str", "1"),
+    lit("float", "1.0"), lit("bool", "True"), lit("float", "0.5"), lit("str", "1/2"), ("Real", 1, 1),
+    ("Equals", n, ("Real", 1, 1)), ("OpGE", n, L1), ("Exists", (("v", "A"),), ("F", "q", ("V", "v"))), ("And", p, n),
+]
 
 _NARY = {"And": "and", "Or": "or", "Plus": "+", "Times": "*"}
 _UNIT = {"And": ("b", True), "Or": ("b", False), "Plus": ("i", 0), "Times": ("i", 1)}
@@ -356,6 +365,9 @@ def nontrivial(hist):
     return False
 
 
+PROBE_IDX = [POOL.index(c) for c in PROBE]
+
+
 def shards(tier, seed):
     return [{"level": 0, "first": i} for i in range(len(POOL))]
 
@@ -364,6 +376,7 @@ def run_shard(shard, tier, seed):
     acc = Acc()
     mv = minviol.MinViol(acc)
     depth = bounds(tier)["depth"]
+    full = bounds(tier)["full_pool_calls"]
     seen = {}
     todo = [(shard["first"],)]
     last = None
@@ -390,7 +403,7 @@ def run_shard(shard, tier, seed):
                 last = hist
                 continue
             seen[key] = hist
-            for ci in range(len(POOL)):
+            for ci in (range(len(POOL)) if len(hist) < full else PROBE_IDX):
                 nxt.append(hist + (ci,))
         todo = nxt
     acc.count("states", len(seen))
@@ -406,4 +419,5 @@ finalize = minviol.finalize
 def replay(case):
     hist = tuple(case["hist"])
     _w, found = run_history(hist)
-    return [("%s|%s" % (sub, label(hist[: k + 1])), "history [%s]: %s" % (label(hist[: k + 1]), what)) for k, sub, what in found]
+    res = [("%s|%s" % (sub, label(hist[: k + 1])), "history [%s]: %s" % (label(hist[: k + 1]), what)) for k, sub, what in found]
+    return minviol.filter_replay(case, res)
